@@ -259,6 +259,20 @@ func checkLeak(lc *LeakCase, res *vprop.Result) {
 			nOpen++
 		}
 	}
+	for _, c := range orig.canaries {
+		if !c.Secret || c.IgnoreAbove == "" {
+			continue
+		}
+		// the class of seed C17-r3: a secure-tagged field below an ignore-tagged container field
+		res.Label("secure-canary-below-ignore-tagged-container")
+		ks := strings.Split(c.IgnoreAbove, ">")
+		for _, k := range ks {
+			res.Label("secure-canary-below-ignore-tagged-container:" + k)
+		}
+		if len(ks) >= 2 {
+			res.Label("secure-canary-below-ignore-tagged-container:nested-twice")
+		}
+	}
 	for p := range securePaths {
 		k := p[strings.LastIndex(p, ">")+1:]
 		res.Label("secure-field-kind:" + k)
@@ -426,12 +440,12 @@ func judgeClone(f *failer, name string, out any, orig *builtPlan, scope map[int]
 			// (1) "A value held in a request or response field tagged coerce:"secure" never appears in the result of the
 			//      default clone operations ... however deeply it is nested"
 			if fnd.has(c) {
-				f.fail("C17/clone-leak:"+pathClass(c.Path), "%s: secure canary %v (%s) is present in the clone", name, c, describe(c, orig))
+				f.fail("C17/clone-leak:"+classOf(c), "%s: secure canary %v (%s) is present in the clone", name, c, describe(c, orig))
 				continue
 			}
 			for enc, doc := range docs {
 				if textHas(doc, c) {
-					f.fail("C17/clone-leak-json:"+pathClass(c.Path), "%s: secure canary %v (%s) is present in the %s encoding of the clone", name, c, describe(c, orig), enc)
+					f.fail("C17/clone-leak-json:"+classOf(c), "%s: secure canary %v (%s) is present in the %s encoding of the clone", name, c, describe(c, orig), enc)
 				}
 			}
 			continue
@@ -443,8 +457,11 @@ func judgeClone(f *failer, name string, out any, orig *builtPlan, scope map[int]
 		if orig.carriers[c.Carrier].isResp && !keepState {
 			continue
 		}
+		if c.Ignored {
+			continue // data in / below an ignore-tagged field: "untagged" does not clearly cover it, not asserted
+		}
 		if !fnd.has(c) {
-			f.fail("C17/clone-untagged-lost:"+pathClass(c.Path), "%s: untagged canary %v (%s) is missing from the clone", name, c, describe(c, orig))
+			f.fail("C17/clone-untagged-lost:"+classOf(c), "%s: untagged canary %v (%s) is missing from the clone", name, c, describe(c, orig))
 		}
 	}
 }
@@ -548,12 +565,12 @@ func judgeRemoveCompleted(f *failer, name string, out any, orig *builtPlan, op c
 			continue
 		}
 		if fnd.has(c) {
-			f.fail("C17/clone-leak:"+pathClass(c.Path)+":remove-completed", "%s: secure canary %v (%s) is present in the clone", name, c, describe(c, orig))
+			f.fail("C17/clone-leak:"+classOf(c)+":remove-completed", "%s: secure canary %v (%s) is present in the clone", name, c, describe(c, orig))
 			continue
 		}
 		for enc, doc := range docs {
 			if textHas(doc, c) {
-				f.fail("C17/clone-leak-json:"+pathClass(c.Path)+":remove-completed", "%s: secure canary %v (%s) is present in the %s encoding of the clone", name, c, describe(c, orig), enc)
+				f.fail("C17/clone-leak-json:"+classOf(c)+":remove-completed", "%s: secure canary %v (%s) is present in the %s encoding of the clone", name, c, describe(c, orig), enc)
 			}
 		}
 	}
@@ -644,13 +661,13 @@ func judgeRender(f *failer, res *vprop.Result, lc *LeakCase) {
 		if c.Secret {
 			// (4) "... nor in any file of a rendered HTML report"
 			if name := inFiles(c); name != "" {
-				f.fail("C17/report-leak:"+pathClass(c.Path), "reports.Render: secure canary %v (%s) occurs in report file %s", c, describe(c, rp), name)
+				f.fail("C17/report-leak:"+classOf(c), "reports.Render: secure canary %v (%s) occurs in report file %s", c, describe(c, rp), name)
 			}
 			continue
 		}
 		// "while untagged data ... [is] left intact": still in the caller's plan
-		if !after.has(c) {
-			f.fail("C17/render-untagged-lost-in-plan:"+pathClass(c.Path), "reports.Render removed untagged canary %v (%s) from the plan it was given", c, describe(c, rp))
+		if !c.Ignored && !after.has(c) {
+			f.fail("C17/render-untagged-lost-in-plan:"+classOf(c), "reports.Render removed untagged canary %v (%s) from the plan it was given", c, describe(c, rp))
 		}
 		// What a report prints is not part of the statement (it may leave responses out, summarise blobs, ...): an
 		// untagged value that is not shown is NO violation. The untagged canaries that ARE found are counted, as
